@@ -772,6 +772,15 @@ def parse_fmt(spec):
     return p
 
 
+@op('fmt_huge')
+def _fmt_huge(m, o):
+    """A format spec whose width does not fit a machine index: str raises ValueError for it; outcome only."""
+    x = m.regs[o['r']]
+    spec = o['spec']
+    pyout, _ = guarded(lambda: format(x.base_str, spec.split(':')[0] if not spec.startswith(':') else spec))
+    return {'spec': cps(spec), 'pyout': pyout}, (lambda: format(x, spec)), 'scalar', {'obs': lambda v: {}}
+
+
 @op('fmt')
 def _fmt(m, o):
     x = m.regs[o['r']]
